@@ -18,7 +18,7 @@ use std::{
 
 thread_local! {
     static NOW: Cell<Option<SystemTime>> = const { Cell::new(None) };
-    static SCHED_POINT: RefCell<Option<Box<dyn FnMut()>>> = const { RefCell::new(None) };
+    static SCHED_POINT: RefCell<Option<std::rc::Rc<dyn Fn()>>> = const { RefCell::new(None) };
     static PROBES: RefCell<BTreeMap<&'static str, u64>> = const { RefCell::new(BTreeMap::new()) };
 }
 
@@ -39,18 +39,17 @@ pub fn elapsed_since(earlier: SystemTime) -> Duration {
 
 /// Installs (or removes) the callback invoked before every access to the shimmed atomics
 /// on the current thread.
-pub fn set_sched_point(callback: Option<Box<dyn FnMut()>>) {
+pub fn set_sched_point(callback: Option<std::rc::Rc<dyn Fn()>>) {
     SCHED_POINT.with(|cell| *cell.borrow_mut() = callback);
 }
 
 fn sched_point() {
-    SCHED_POINT.with(|cell| {
-        if let Ok(mut guard) = cell.try_borrow_mut() {
-            if let Some(callback) = guard.as_mut() {
-                callback();
-            }
-        }
-    });
+    // The callback is cloned out first: a controlled scheduler may switch to another
+    // (green) thread of the same OS thread inside it, which must be able to get here too.
+    let callback = SCHED_POINT.with(|cell| cell.try_borrow().ok().and_then(|guard| guard.clone()));
+    if let Some(callback) = callback {
+        callback();
+    }
 }
 
 /// Increments the named probe counter of the current thread.
